@@ -1007,10 +1007,10 @@ def install(E):
     # ---- logging / formatting: opaque sinks ----------------------------------------------
     def h_opaque(E, m, func, argv, guard, mem, dty, caller):
         return Opaque('fmt/log')
-    reg(r'^core::fmt::|^std::fmt::|^alloc::fmt::|^core::fmt::rt::|Arguments::<.*>::new|^std::fmt::Arguments|'
+    reg(r'^core::fmt::|^std::fmt::|^alloc::fmt::|^core::fmt::rt::|Arguments::<.*>::new|^Arguments::<.*>::|^std::fmt::Arguments|'
         r'^alloc::fmt::format|Record::<.*>::new|as (?:[\w]+::)*Logger>::log$|^util::logger::Record|'
         r'^<.* as ToString>::to_string$|^<.* as (?:std::fmt::|core::fmt::)?(?:Display|Debug)>::fmt$|'
-        r'WithContext|^std::string::String|^<str as (?:std::borrow::|alloc::borrow::)?ToOwned>::to_owned|^<&?str as Into<String>>::into|'
+        r'WithContext|^std::string::String|^std::slice::<impl \[u8\]>::to_vec$|^core::slice::<impl \[u8\]>::to_vec$|^(?:std::vec::|alloc::vec::)?Vec::<u8>::(?:new|with_capacity|extend_from_slice|push)$|^(?:std::vec::|alloc::vec::)from_elem::<u8>$|^<str as (?:std::borrow::|alloc::borrow::)?ToOwned>::to_owned|^<&?str as Into<String>>::into|'
         r'^<String as From<&str>>::from', h_opaque)
 
     def h_deref_ref(E, m, func, argv, guard, mem, dty, caller):
@@ -1029,6 +1029,35 @@ def install(E):
             return NotImplemented
         return E.call_closure(clo, list(args.fs), guard, mem)
     reg(r' as (?:std::ops::|core::ops::)?Fn(?:Mut|Once)?<\(.*\)>>::call(?:_mut|_once)?$', h_fn_call)
+
+    # ---- locks: guards are plain references to the protected value ---------------------
+    def h_lock(E, m, func, argv, guard, mem, dty, caller):
+        r = argv[0]
+        lockv = deref(E, r, mem, guard)
+        if not (isinstance(lockv, Adt) and lockv.base is not None):
+            return NotImplemented
+        key = lockv.base
+        if key not in E.lock_cells:
+            inner_ty = m.group(2)
+            c = E.new_cell()
+            mem[c] = E.sym(key + '.inner', inner_ty, mem)
+            E.lock_cells[key] = c
+        c = E.lock_cells[key]
+        if c not in mem:
+            mem[c] = E.sym(key + '.inner', m.group(2), mem)
+        return En('Result', 0, {0: [Ref(c)]})
+    reg(r'^(?:std::sync::|sync::\w+::|crate::sync::)?(RwLock|Mutex)::<(.*)>::(?:read|write|lock)$', h_lock)
+
+    def h_guard_deref(E, m, func, argv, guard, mem, dty, caller):
+        v = deref(E, argv[0], mem, guard) if isinstance(argv[0], Ref) else argv[0]
+        g = argv[0]
+        # &guard -> guard (a Ref to the protected value)
+        if isinstance(g, Ref):
+            inner = E.read_path(mem[g.cell], g.path, mem, guard, 'guard')
+            if isinstance(inner, Ref):
+                return inner
+        return NotImplemented
+    reg(r'^<(?:std::sync::)?(?:RwLockReadGuard|RwLockWriteGuard|MutexGuard)<.*> as (?:std::ops::)?Deref(?:Mut)?>::deref(?:_mut)?$', h_guard_deref)
 
     # ---- mem ------------------------------------------------------------------------
     def h_mem(E, m, func, argv, guard, mem, dty, caller):
